@@ -75,12 +75,14 @@ CLAIMS["C04"] = dict(
           "character; read_msf's block loop starts on the line after the '//' divider; every loop that zeroes, totals or materialises gaps covers all "
           "len+1 slots of all numseq sequences, ALN_STATUS_UNALIGNED is assigned only where all gaps are zero and nothing "
           "before the merge phase reads gaps; kalign_read_input never resets or overwrites a non-NULL accumulator and "
-          "merge_msa recomputes kind, status and profile tables on every success path."),
+          "merge_msa recomputes kind, status and profile tables on every success path; input positions are numbered once over "
+          "the merged set (R04k = R01b); no failure exit of kalign_read_input - which runs once per input file - is taken for exactly "
+          "one record read so far (guards evaluated at numseq = 1; the count is judged after the merge, R04l)."),
     note=("Clauses only: byte-identical output for two presentations needs the whole parser semantics over all byte strings "
           "and is NOT decided; the format-sniffing tokens are covered under C06, the kind decision under C13. Heuristics "
           "with numeric thresholds (is the file empty, first-100-lines sniffing) are not decided."),
     technique="sibling cross-check of reader chains, loop-span/coverage rule with affine bounds, who-may-write, must-call",
-    design_ref="DESIGN.md section 3, C04 (R04a-R04j)")
+    design_ref="DESIGN.md section 3, C04 (R04a-R04l)")
 
 CLAIMS["C06"] = dict(
     text=("Decides the lexical contract that any round trip needs: every token detect_alignment_format / read_msf / "
@@ -156,7 +158,8 @@ CLAIMS["C07"] = dict(
           "implement one recurrence each: every straight-line piece leaves the same max-plus normal form (penalties "
           "mapped to open/extension/terminal classes, scores to S) in every DP cell, carried local and candidate, under "
           "each of the four border situations, each backward pass is the left-right mirror image of its forward pass, and the "
-          "border tests select interior/terminal prices with the same polarity."),
+          "border tests select interior/terminal prices with the same polarity; the runners save the boundary states before a "
+          "kernel has run (slot 0 of the f/b arrays is DP cell 0 as well)."),
     note=("The optimality statement itself is numerical and is NOT decided: the recurrence comparison is relative (a slip "
           "made identically in all six passes is invisible), and profile row/column offsets, float rounding and "
           "tie-breaks are not examined."),
@@ -173,11 +176,13 @@ CLAIMS["C13"] = dict(
           "nucleotide for any gaps/order/names); the second premise is decided per letter: the totals are linear in the "
           "histogram, so for each protein-only letter of the documented protein alphabet the worst composition (a quarter of "
           "that letter, three quarters of the shared letter that pulls hardest towards nucleotide) is evaluated exactly; the "
-          "larger total selects the matching biotype; msa.biotype is assigned a kind only by detect_alphabet; the kind gates the type."),
+          "larger total selects the matching biotype; msa.biotype is assigned a kind only by detect_alphabet; the kind gates the type; "
+          "every increment of the histogram by an input character is executed for all 52 letters and under no budget that the counting "
+          "itself uses up (R13g)."),
     note=("Known finding F24 (recorded, not repaired): the second premise fails literally for the letters B, Z and X, which are not "
           "in the protein model (replay: findings/F24). Assumes C-locale isalpha."),
     technique="effect summary (read set), constant evaluation of the letter models, finite evaluation of the voting filter, who-may-write",
-    design_ref="DESIGN.md section 3, C13 (R13a-R13e)")
+    design_ref="DESIGN.md section 3, C13 (R13a-R13g)")
 
 CLAIMS["C14"] = dict(
     text=("Decides non-interference of case and T/U spelling: among everything kalign_run runs before finalise_alignment "
@@ -187,12 +192,13 @@ CLAIMS["C14"] = dict(
           "have codes, T/U/t/u share one code and A,C,G,T are distinct; the kind decision is blind to spelling exactly when "
           "each letter's margin (nucleotide weight - protein weight) equals that of its case twin and T's equals U's, which is "
           "evaluated from the reconstructed models; in each reader every letter and its case twin take the same branch of the "
-          "character classification (all byte values evaluated)."),
+          "character classification (all byte values evaluated); elements of msa.letter_freq are read only by the kind decision, "
+          "the additive merge and diagnostics - no other code looks at the count of one particular spelling (R14g)."),
     note=("Known finding F23 (recorded, not repaired): T is a letter of the protein model and U is not, so nucleotide input with "
           "more than ~10% ambiguity letters is detected as protein in T spelling and nucleotide in U spelling (replay: "
           "findings/F23). Assumes C-locale isalpha."),
     technique="who-may-read over the call graph + constant evaluation of the alphabet constructors and letter models + finite evaluation of the readers' character tests",
-    design_ref="DESIGN.md section 3, C14 (R14a-R14f)")
+    design_ref="DESIGN.md section 3, C14 (R14a-R14g)")
 
 CLAIMS["C16"] = dict(
     text=("Decides that there is no channel from one library call to the next: every file-scope variable and function-local "
@@ -215,7 +221,9 @@ CLAIMS["C17"] = dict(
           "the counters incremented in compare_pair's comparison loops and b exactly those incremented while scanning the "
           "first pair of rows - which the caller fills from the reference parameter - and no test-side counter; uniqueness "
           "check and matching order use one comparison function; every row-walking loop (also inside private helpers) is "
-          "bounded by the length of the alignment its rows belong to; the score is computed without float operands."),
+          "bounded by the length of the alignment its rows belong to; the score is computed without float operands and without any "
+          "local or conversion narrower than the counter fields (R17h); kalign_sort_msa sorts on every success path or skips the sort "
+          "only after a scan whose range covers all numseq-1 adjacent pairs (R17i)."),
     note="Does not decide that the counters count the stated relations (index arithmetic in compare_pair) nor the 0..100 range.",
     technique="CFG dominance + argument pairing + reaching definitions + counter classification by scanned parameters",
-    design_ref="DESIGN.md section 3, C17 (R17a-R17f)")
+    design_ref="DESIGN.md section 3, C17 (R17a-R17i)")
